@@ -125,8 +125,39 @@ func parserOptions(fd *ast.FuncDecl) []string {
 		}
 		return false
 	}
+	// option tables: a local map with string-literal keys that is indexed by the option name
+	tables := map[string][]string{}
+	ast.Inspect(fd.Body, func(n ast.Node) bool {
+		as, ok := n.(*ast.AssignStmt)
+		if !ok || len(as.Lhs) != 1 || len(as.Rhs) != 1 {
+			return true
+		}
+		id, ok := as.Lhs[0].(*ast.Ident)
+		cl, ok2 := as.Rhs[0].(*ast.CompositeLit)
+		if !ok || !ok2 {
+			return true
+		}
+		if _, isMap := cl.Type.(*ast.MapType); !isMap {
+			return true
+		}
+		for _, el := range cl.Elts {
+			if kv, ok := el.(*ast.KeyValueExpr); ok {
+				if bl, ok := kv.Key.(*ast.BasicLit); ok && bl.Kind == token.STRING {
+					k, _ := strconv.Unquote(bl.Value)
+					tables[id.Name] = append(tables[id.Name], k)
+				}
+			}
+		}
+		return true
+	})
 	ast.Inspect(fd.Body, func(n ast.Node) bool {
 		switch x := n.(type) {
+		case *ast.IndexExpr:
+			if id, ok := x.X.(*ast.Ident); ok && isOpt(x.Index) {
+				for _, k := range tables[id.Name] {
+					set[k] = true
+				}
+			}
 		case *ast.SwitchStmt:
 			if x.Tag != nil && isOpt(x.Tag) {
 				for _, cl := range x.Body.List {
